@@ -16,7 +16,11 @@ SPEC = {
              "at every position k (then a second loop continuing on the handle), functors throwing pdu_not_found / malformed_packet, max_packets=k, "
              "extract_raw_pdus; x sniffing method {pcap_loop, pcap_dispatch, custom method handing the handler an exact-size heap copy of the frame}; "
              "x constructor {path|FILE* x SnifferConfiguration|filter string, set_filter after open}; x filter {none, ip, tcp port 80, udp, vlan, "
-             "ether src, len > 60, wlan type mgt as far as libpcap accepts them for the link type}; plus the file cut inside its last record. "
+             "ether src, len > 60, wlan type mgt, and the empty expression, as far as libpcap accepts them for the link type}; filter REPLACED on a live "
+             "sniffer: every ordered pair (f1, f2) of accepted expressions x f1 installed via SnifferConfiguration::set_filter or BaseSniffer::set_filter "
+             "x BaseSniffer::set_filter(f2) after k in 0..min(2,n) delivered packets (full product for sequences of length <= 2, 4 rotating "
+             "combinations per longer sequence), every frame judged with libpcap's verdict for the expression in force when it was read; "
+             "plus the file cut inside its last record. "
              "Oracle on every read: packets out = [f | the link type's top-level parser accepts f and pcap_offline_filter(harness-compiled program, f)], "
              "in order, same class, same bytes (serialization equal to that of the packet parsed directly from the frame; equal to the frame itself "
              "for the fixpoint frames and in extract_raw mode), same seconds/microseconds; stable clean end of file; no exception out of any reader; "
@@ -28,7 +32,7 @@ SPEC = {
               "frames are handled independently by the loop except for the libpcap buffer they share, so sequences of length 2 already cover "
               "every (previous frame, frame) pair and the longer ones cover skip chains before/after/between accepted frames and the end of file."),
     "note": ("Trusted: libpcap (file reading, filter compilation and evaluation), the sanitizers, the harness' 20-line pcap writer/reader. "
-             "Bound: sequence length, the 9-frame alphabets, 3 timestamps, 7 filter expressions. rot=1,2 run a reduced reader set (timestamps "
+             "Bound: sequence length, the 9-frame alphabets, 3 timestamps, 8 filter expressions, one filter replacement per read. rot=1,2 run a reduced reader set (timestamps "
              "do not interact with readers); constructors are a full product only for sequences of length <= 1."),
     "assumptions": ["libpcap reads what libpcap-format files contain and pcap_offline_filter is the reference verdict (DESIGN appendix C)",
                     "no frame that makes a top-level parser throw anything but malformed_packet is known (1M one-byte deviations/truncations of 30 seeds searched); "
